@@ -91,6 +91,15 @@ def scribble(x):
             x.add_(13)
 
 
+class ContractViolation(Exception):
+    """raised by a harness helper when the library broke a caller-side contract in a place where no tally is at hand;
+    callers report it like any library exception, the shard pool turns an uncaught one into a violation"""
+
+    def __init__(self, key, message):
+        super().__init__(f"{key}: {message}")
+        self.key, self.message = key, message
+
+
 class Guard:
     """Caller-side contract for tensors handed to the library: (1) the call must not modify them in place, (2) the library must
     not keep an alias - after the call they are overwritten (``scribble``) before any state is compared with the model."""
